@@ -454,6 +454,7 @@ impl CharSet for NumericCharSet {
     }
 
     fn from_str(s: &str) -> Result<Cow<[u8]>, CharSetError> {
+        Self::check(&mut s.bytes())?;
         Ok(Cow::Borrowed(s.as_bytes()))
     }
 }
@@ -500,6 +501,7 @@ impl CharSet for PrintableCharSet {
     }
 
     fn from_str(s: &str) -> Result<Cow<[u8]>, CharSetError> {
+        Self::check(&mut s.bytes())?;
         Ok(Cow::Borrowed(s.as_bytes()))
     }
 }
@@ -540,6 +542,7 @@ impl CharSet for Ia5CharSet {
     }
 
     fn from_str(s: &str) -> Result<Cow<[u8]>, CharSetError> {
+        Self::check(&mut s.bytes())?;
         Ok(Cow::Borrowed(s.as_bytes()))
     }
 }
